@@ -957,6 +957,28 @@ impl<'t, 'b> G<'t, 'b> {
                     }
                 }
             }
+            // a comatch observed in place: `(comatch … end : C) .d args`, usually as a `do` bindee (non-tail)
+            | 7 if !self.codatas.is_empty() && self.t.chance(110) => {
+                self.feat("comatch-observed-in-place");
+                let c = self.t.below(self.codatas.len());
+                let obj = if self.codatas[c].recursive {
+                    let f = self.bid();
+                    let body = self.comatch(c, depth - 1, Some(f));
+                    Comp::Fix(f, CTy::Codata(c), Box::new(body))
+                } else {
+                    self.comatch(c, depth - 1, None)
+                };
+                let n = self.codatas[c].dtors.len();
+                let d = self.t.below(n);
+                let decl = self.codatas[c].dtors[d].clone();
+                let args: Vec<Val> = decl.params.iter().map(|a| self.gen_val(a, depth.saturating_sub(1))).collect();
+                let observed = Comp::Dtor(Box::new(obj), c, d, args);
+                match &decl.result {
+                    | r if r == t => observed,
+                    | CTy::Ret(a) => self.bind_then((**a).clone(), observed, t, depth),
+                    | _ => self.gen_comp(t, depth - 1),
+                }
+            }
             // beta redex with an annotated abstraction
             | 7 => {
                 self.feat("beta-redex");
